@@ -25,6 +25,34 @@ def selfcheck():
     return 0
 
 
+def selftest_for(pid, rep):
+    """thorough tier: the one-edit variants of the corpus that belong to this property are built
+    from the tree under analysis in scratch directories (outside /repo and /verif, removed after
+    use) and the quick check is run on each: `break` variants must be reported, `benign` ones not.
+    A variant that is not judged as expected means the *checker* is broken: exit 2, never a verdict."""
+    import importlib.util
+    from concurrent.futures import ThreadPoolExecutor
+    spec = importlib.util.spec_from_file_location('selftest_run', os.path.join(VERIF, 'selftest', 'run.py'))
+    st = importlib.util.module_from_spec(spec)
+    spec.loader.exec_module(st)
+    muts = [dict(m, props=[pid]) for m in st.load_mutants() if pid in m['props']]
+    if not muts:
+        return
+    os.environ['VERIF_NO_SELFTEST'] = '1'
+    bad = []
+    with ThreadPoolExecutor(8) as ex:
+        for mut, status, detail, res in ex.map(lambda m: st.run_one(m, 'quick'), muts):
+            rep.count('self-test variants judged')
+            if status == 'NOT-APPLICABLE':
+                rep.note(f'self-test variant {mut["id"]} does not apply to this tree ({detail})')
+            elif status != 'PASS':
+                bad.append(f'{mut["kind"]} variant {mut["id"]}:{detail[:200]}')
+    rep.sample({'self-test variants': [m['id'] for m in muts]})
+    if bad and not rep.findings:
+        for b in bad:
+            rep.error(f'self-test: {b}')
+
+
 def main(argv=None):
     argv = sys.argv[1:] if argv is None else argv
     if argv and argv[0] == '--selfcheck':
@@ -53,6 +81,8 @@ def main(argv=None):
         return 2
     try:
         mod.run(rep, a.tier)
+        if a.tier == 'thorough' and not os.environ.get('VERIF_NO_SELFTEST'):
+            selftest_for(pid, rep)
     except AnalysisError as e:
         rep.error(f'{type(e).__name__}: {e}')
     except RecursionError:
